@@ -893,7 +893,7 @@ func ruleR06_6(c *Check) {
 			r.Check(okv, o.SiteFn, k.key("pointer file id is the file written to", w, as), as, "valuePointer.Fid is assigned "+short(w, rhs)+", not the fid of the log file that encodeEntry writes to")
 		case offF:
 			no++
-			r.Check(w.isCallTo(rhs, w.Func("badger.valueLog.woffset")), o.SiteFn, k.key("pointer offset is the current write offset", w, as), as, "valuePointer.Offset is assigned "+short(w, rhs))
+			r.Check(w.isCallTo(w.Origin(o.SiteFn, rhs), w.Func("badger.valueLog.woffset")), o.SiteFn, k.key("pointer offset is the current write offset", w, as), as, "valuePointer.Offset is assigned "+short(w, rhs))
 		case lenF:
 			nl++
 			org := w.Origin(o.SiteFn, rhs)
@@ -908,6 +908,18 @@ func ruleR06_6(c *Check) {
 	r.Exists(nf >= 1 && no >= 1 && nl >= 1, f, "pointer fields assigned", nil, "expected stores to Fid, Offset and Len of the value pointer in valueLog.write")
 	// the offset given to encodeEntry is the pointer's offset
 	okArg := len(encCall.Args) == 3 && w.fieldOf(encCall.Args[2]) == offF
+	if !okArg && len(encCall.Args) == 3 {
+		// or the very local the pointer's Offset was assigned from
+		if aid, isId := unparen(encCall.Args[2]).(*ast.Ident); isId {
+			for _, o := range f.SitesDeep(selStore(offF)) {
+				if as, isAs := o.Node.(*ast.AssignStmt); isAs && len(as.Rhs) == 1 {
+					if rid, isR := unparen(as.Rhs[0]).(*ast.Ident); isR && w.Use(rid) == w.Use(aid) {
+						okArg = true
+					}
+				}
+			}
+		}
+	}
 	r.Check(okArg, f, "entry encoded at the pointer's offset", encCall, "encodeEntry is given "+short(w, encCall.Args[len(encCall.Args)-1])+" as offset, not the pointer's Offset")
 }
 
